@@ -118,7 +118,15 @@ func verif_harness_C08_encode_command() {
 // combined decoder yields equals the report computed directly from the records.
 //
 //verif:harness unwind=64 replay=none
-func verif_harness_C13_report_command() {
+func verif_harness_C13_report_command() { verifReportCommand() }
+
+// The same harness registered for C10 (the report command computes the same
+// metrics as adding the records directly).
+//
+//verif:harness unwind=64 replay=none
+func verif_harness_C10_report_command() { verifReportCommand() }
+
+func verifReportCommand() {
 	if !verif_is_symbolic_run() {
 		return
 	}
